@@ -287,6 +287,11 @@ def check(case, rec: Rec) -> None:
 REQUIRED_LABELS = {"top-level-alternative": 0.3, "nested-refs": 0.2, "absent-name": 0.2}
 
 
+def sample_view(case):
+    return "saved: " + "; ".join(zoq_line(n, s) for n, s in case["saved"].items()) + "\nqueries:\n" + \
+        "\n".join("S note W " + render_or(q["where"]) + " O none" for q in case["queries"])
+
+
 def parts(tier):
     from ..engine import load_findings
 
